@@ -240,30 +240,48 @@ def work_multi_entry(chunk, st):
             servers[(ip, eport)] = P.Server(label='%s@%d' % (ip, eport), banner=('SSH-2.0-Srv_%s_%d' % (ip.replace(':', 'x').replace('.', 'x'), eport)).encode())
             lines.append(spellings(kind, host, port)[-1][1])
             expect.append((host, ip, eport, kind))
-        w = vnet.World(servers=servers, resolver=resolver)
-        path = H.tmp_path('c18-multi.txt')
-        with open(path, 'w') as f:
-            f.write(''.join(l + '\n' for l in lines))
-        argv = ['-n', '--skip-rate-test', '-j', '-T', path, '--threads', '1'] + (['-p', str(popt)] if popt else [])
-        res = runner.run_cli(argv, w)
-        st.execution(w, outcome=('multi-entry', len(ents), res.status), root=('multi-entry', ents, popt), nontrivial=('multi-entry', ents, popt))
-        d = {'lines': lines, 'p': popt, 'status': res.status}
-        try:
-            docs = json.loads(res.stdout)
-        except ValueError:
-            st.violation('multi-entry:json-unparseable', dict(d, stdout=res.stdout[:200]))
-            continue
-        if len(docs) != len(ents):
-            st.violation('multi-entry:wrong-number-of-results', dict(d, got=len(docs)))
-            continue
-        connects = [(ev[2], ev[3]) for ev in w.log if ev[0] == 'connect']
-        if sorted(set(connects)) != sorted(set((ip, pt) for _h, ip, pt, _k in expect)):
-            st.violation('multi-entry:connects-to-wrong-endpoints', dict(d, connects=sorted(set(connects)), expected=sorted(set((ip, pt) for _h, ip, pt, _k in expect))))
-        for (host, ip, eport, kind), doc in zip(expect, docs):
-            want_banner = 'SSH-2.0-Srv_%s_%d' % (ip.replace(':', 'x').replace('.', 'x'), eport)
-            if doc.get('target') != '%s:%d' % (host, eport) or doc.get('banner', {}).get('raw') != want_banner:
-                st.violation('multi-entry:report-label-or-content-of-another-target', dict(d, target=doc.get('target'), banner=doc.get('banner', {}).get('raw'),
-                                                                                         expected=['%s:%d' % (host, eport), want_banner]))
+        # the same list alone, and behind an entry that cannot be reached at all (unknown name; an IPv6 literal under -4): the
+        # unreachable entry costs the others neither their connection nor their labelled report
+        variants = [(None, [])]
+        variants.append(('unresolvable-first', []))
+        if not any(k == 'v6' for _h, _i, _p, k in expect):
+            variants.append(('v6-literal-under--4-first', ['-4']))
+        for variant, xopts in variants:
+            vlines = list(lines)
+            if variant == 'unresolvable-first':
+                vlines.insert(0, 'nosuchhost.example')
+            elif variant is not None:
+                vlines.insert(0, '[2001:db8::99]:2222')
+            w = vnet.World(servers=servers, resolver=resolver)
+            path = H.tmp_path('c18-multi.txt')
+            with open(path, 'w') as f:
+                f.write(''.join(l + '\n' for l in vlines))
+            argv = ['-n', '--skip-rate-test', '-j', '-T', path, '--threads', '1'] + (['-p', str(popt)] if popt else []) + xopts
+            res = runner.run_cli(argv, w)
+            st.execution(w, outcome=('multi-entry', len(ents), res.status, variant), root=('multi-entry', ents, popt, variant), nontrivial=('multi-entry', ents, popt, variant))
+            d = {'lines': vlines, 'p': popt, 'status': res.status, 'options': xopts}
+            tag = 'multi-entry' if variant is None else 'multi-entry-after-unreachable'
+            if res.exc or res.hang:
+                st.violation('%s:escaped-exception-or-hang' % tag, dict(d, exc=res.exc, hang=res.hang))
+                continue
+            try:
+                docs = json.loads(res.stdout)
+            except ValueError:
+                st.violation('%s:json-unparseable' % tag, dict(d, stdout=res.stdout[:200]))
+                continue
+            if len(docs) != len(vlines):
+                st.violation('%s:wrong-number-of-results' % tag, dict(d, got=len(docs)))
+                continue
+            if variant is not None:
+                docs = docs[1:]
+            connects = [(ev[2], ev[3]) for ev in w.log if ev[0] == 'connect']
+            if sorted(set(connects)) != sorted(set((ip, pt) for _h, ip, pt, _k in expect)):
+                st.violation('%s:connects-to-wrong-endpoints' % tag, dict(d, connects=sorted(set(connects)), expected=sorted(set((ip, pt) for _h, ip, pt, _k in expect))))
+            for (host, ip, eport, kind), doc in zip(expect, docs):
+                want_banner = 'SSH-2.0-Srv_%s_%d' % (ip.replace(':', 'x').replace('.', 'x'), eport)
+                if doc.get('target') != '%s:%d' % (host, eport) or doc.get('banner', {}).get('raw') != want_banner:
+                    st.violation('%s:report-label-or-content-of-another-target' % tag, dict(d, target=doc.get('target'), banner=doc.get('banner', {}).get('raw'),
+                                                                                        expected=['%s:%d' % (host, eport), want_banner]))
     st.sample({'targets_file': [spellings('name', h, p)[-1][1] if ':' not in h else h for h, p in chunk[0][0]], 'p': chunk[0][1]}, cap=8)
 
 
